@@ -676,16 +676,22 @@ func (c *lfCtx) call(call *ast.CallExpr) {
 				return
 			}
 			if name, fv, ok := c.baseField(recvX); ok {
-				c.read(name)
 				ts := lfTypeString(fv.Type())
 				switch {
+				case strings.HasPrefix(ts, "sync/atomic."):
+					// a field of type atomic.Bool / Int64 / Pointer[T] … : every method is an atomic access
+					addUniq(&c.cur.Atomics, name)
 				case c.trackedRecv(m) != nil:
+					c.read(name)
 					addUniq(&c.m.ExtCalls, c.trackedRecv(m).Name+"."+m.Name())
 				case ts == "*container/list.List" && lfListMut[m.Name()]:
+					c.read(name)
 					c.write(name + "[]")
 				case ts == "*container/list.List" && lfListRead[m.Name()]:
+					c.read(name)
 					c.read(name + "[]")
 				default:
+					c.read(name)
 					c.irr(call, "unclassified method %s on field %s", lfFuncName(m), name)
 					c.write(name + "[]")
 				}
